@@ -436,6 +436,26 @@ func (c *lctx) expr(v ssa.Value) *bx {
 		if b, ok := com.Value.(*ssa.Builtin); ok && b.Name() == "len" {
 			return &bx{op: "len", w: 64, signed: true, a: c.expr(com.Args[0])}
 		}
+		// a helper that maps a bool to its 1/0 encoding: func(v bool) T { if v { return 1 }; return 0 }
+		if cal := com.StaticCallee(); cal != nil && inRepo(cal) && cal.Blocks != nil && len(cal.Params) == 1 && len(com.Args) == 1 && len(cal.Blocks) == 3 {
+			if iff, ok := cal.Blocks[0].Instrs[len(cal.Blocks[0].Instrs)-1].(*ssa.If); ok && len(cal.Blocks[0].Instrs) == 1 && iff.Cond == ssa.Value(cal.Params[0]) {
+				retConst := func(b *ssa.BasicBlock) (int64, bool) {
+					if len(b.Instrs) != 1 {
+						return 0, false
+					}
+					ret, ok := b.Instrs[0].(*ssa.Return)
+					if !ok || len(ret.Results) != 1 {
+						return 0, false
+					}
+					return constInt(ret.Results[0])
+				}
+				t, okT := retConst(cal.Blocks[0].Succs[0])
+				f, okF := retConst(cal.Blocks[0].Succs[1])
+				if okT && okF && t == 1 && f == 0 {
+					return &bx{op: "bool", w: w, a: c.expr(com.Args[0])}
+				}
+			}
+		}
 		if cal := com.StaticCallee(); cal != nil && cal.Pkg != nil {
 			full := cal.Pkg.Pkg.Path() + "." + cal.Name()
 			switch full {
